@@ -15,6 +15,7 @@ struct Profile {
   bool inertExtras = false;      // hidden / deprecated / display flags present but unused
   bool scalars = true, flagsArgs = true;
   bool mandatory = false;
+  bool positional = false;       // one argument may be the positional one (key specification "-")
   int minArgs = 1, maxArgs = 6;
   int onlyKind = -1;             // C06: exactly one argument of this kind (-1: free choice)
   bool sourcesFlags = false;
@@ -55,6 +56,9 @@ inline KeySet keySetOf(const Config &c, bool withArgFile = false) {
   if (withArgFile) k.longs.push_back("arg-file");
   return k;
 }
+
+// a value that would be read as a key or control character when it stands alone
+inline bool needsAttach(const std::string &t) { return (!t.empty() && t[0] == '-') || t == "(" || t == ")" || t == "!"; }
 
 // ---------------------------------------------------------------- values
 inline std::string genIntText(long long lo, long long hi) {
@@ -281,6 +285,7 @@ inline Config genConfig(const Profile &pf) {
   std::vector<int> kinds = kindsFor(pf);
   int n = *range<int>(pf.minArgs, pf.maxArgs);
   std::set<int> usedSlots;
+  bool havePositional = false;
   std::set<char> usedShort;
   std::set<std::string> usedLong;
   for (char b : builtinShortKeys(c.flags)) usedShort.insert(b);
@@ -306,14 +311,31 @@ inline Config genConfig(const Profile &pf) {
     for (char ch = 'a'; ch <= 'z'; ++ch) if (!usedShort.count(ch)) freeShort.push_back(ch);
     std::vector<std::string> freeLong;
     for (auto &w : longVocabulary()) if (!usedLong.count(w)) freeLong.push_back(w);
-    if (form <= 2 || form >= 6) { a.shortKey = oneOf(freeShort); usedShort.insert(a.shortKey); }
-    if (form >= 3) { a.longKey = oneOf(freeLong); usedLong.insert(a.longKey); }
-    a.spec = makeSpec(a.shortKey, a.longKey);
+    const bool positionalKind = kind == K_STRING || kind == K_INT || kind == K_VEC_STRING || kind == K_VEC_INT;
+    if (pf.positional && !havePositional && positionalKind && pick(30)) {
+      havePositional = true;
+      a.spec = "-";   // the positional argument: receives the free values
+    } else {
+      if (form <= 2 || form >= 6) { a.shortKey = oneOf(freeShort); usedShort.insert(a.shortKey); }
+      if (form >= 3) { a.longKey = oneOf(freeLong); usedLong.insert(a.longKey); }
+      a.spec = makeSpec(a.shortKey, a.longKey);
+    }
     // attributes
     if (isContainer(kind)) genContainerOptions(a, kind, pf);
+    if (a.spec == "-") a.multiValue = false;
     if (pf.mandatory && kind != K_FLAG && pick(25)) a.mandatory = true;
     if (pf.checks && kind != K_FLAG && kind != K_DOUBLE && !isKeyValue(kind) && kind != K_TUPLE_ISI && pick(55)) genChecks(a, kind);
     if (pf.formats && (kind == K_STRING || kind == K_OPT_STRING || kind == K_VEC_STRING) && !findCheck(a, CH_PATTERN) && !findCheck(a, CH_VALUES) && pick(40)) a.format = pick(50) ? 1 : 2;
+    if (pf.formats && (kind == K_VEC_STRING || kind == K_TUPLE_ISI) && !findCheck(a, CH_PATTERN) && !findCheck(a, CH_VALUES) && pick(45)) {
+      // formatters for single value positions (addFormatPos)
+      int np = *range<int>(1, 2);
+      for (int j = 0; j < np; ++j) {
+        int idx = kind == K_TUPLE_ISI ? *rc::gen::weightedElement<int>({{4, 1}, {1, 0}, {1, 2}}) : *range<int>(0, 5);
+        bool dup = false;
+        for (auto &x : a.posFormats) if (x.first == idx) dup = true;
+        if (!dup) a.posFormats.push_back({idx, pick(50) ? 1 : 2});
+      }
+    }
     if (pf.cardinality && pick(40)) {
       if (isContainer(kind) && kind != K_TUPLE_ISI) {
         int sel = *range<int>(0, 3);
@@ -428,7 +450,7 @@ inline std::vector<std::string> genElems(const ArgDef &a, int kind, int minN, in
       if (pf.size() == 3) t = pf[1] + t + pf[2];
       e.push_back(t);
     } else if (et == 't') {
-      e.push_back(i % 3 == 1 ? genString(1, 4, "abcxyz") : genIntText(-99, 99));
+      e.push_back(i % 3 == 1 ? genString(1, 4, "abcXYZ") : genIntText(-99, 99));
     } else if (et == 'p') {
       e.push_back(genValidText(a, 'p', true));
     } else if (et == 's') {
@@ -553,6 +575,7 @@ inline Line genValidLine(const Config &c, const Profile &pf, int maxUses = 6) {
         if (kind == K_STRING) t = std::string("v") + std::to_string(differSalt[ai]) + genString(0, 3, "abc");
         else t = std::to_string(100 + differSalt[ai] * 7 + *range<int>(0, 6));
       }
+      if (a.spec == "-" && (t.empty() || needsAttach(t))) t = kind == K_STRING ? "p" + t.substr(t.empty() ? 0 : 1) : std::to_string(*range<int>(0, 99));
       u.elems = {t};
       line.push_back(u);
       continue;
@@ -588,7 +611,24 @@ inline Line genValidLine(const Config &c, const Profile &pf, int maxUses = 6) {
       if (all.empty()) continue;
       if (static_cast<int>(all.size()) < minTotal && (a.cardKind == CARD_EXACT || a.cardKind == CARD_RANGE || kind == K_TUPLE_ISI)) continue;
     }
+    if (a.spec == "-") {
+      // every use is one bare word: its first element must not look like a key, and the list is not empty
+      for (auto &x : cutIntoUses(a, ai, all, !constrained.count(ai))) {
+        if (x.elems.empty() || needsAttach(x.elems[0])) x.elems.insert(x.elems.begin(), kind == K_VEC_STRING ? std::string("w") : std::string("7"));
+        line.push_back(x);
+      }
+      continue;
+    }
     for (auto &x : cutIntoUses(a, ai, all, !constrained.count(ai))) line.push_back(x);   // arguments of any/one-of and of requires/excludes are used once
+  }
+  // a bare word directly behind a multi-value argument (or behind an argument used without its optional value) would be
+  // taken by that argument: move such positional uses to the front
+  for (size_t i = 1; i < line.size(); ++i) {
+    if (line[i].arg < 0 || c.args[line[i].arg].spec != "-") continue;
+    const Use &prev = line[i - 1];
+    const ArgDef &pa = c.args[prev.arg];
+    bool swallow = (pa.multiValue && isContainer(sk[pa.slot])) || (!prev.hasValue && sk[pa.slot] != K_FLAG);
+    if (swallow) { Use u = line[i]; line.erase(line.begin() + static_cast<long>(i)); line.insert(line.begin(), u); }
   }
   (void)pf; (void)maxUses;
   return line;
@@ -603,7 +643,6 @@ struct SpellOptions {
 };
 struct SpellStats { int abbrev = 0, eq = 0, glued = 0, grouped = 0, groupEndsInValue = 0, dashValue = 0, emptyValue = 0, endvalues = 0, doubledSep = 0; };
 
-inline bool needsAttach(const std::string &t) { return (!t.empty() && t[0] == '-') || t == "(" || t == ")" || t == "!"; }
 
 inline std::string joinList(const std::vector<std::string> &elems, char sep, SpellStats *ss, bool canonical, int dblPercent = 8) {
   std::string t;
@@ -635,6 +674,12 @@ inline std::vector<std::string> spell(const Config &c, const Line &line, const S
       if (u.keyText.size() == 1) shortKey = u.keyText[0]; else longKey = u.keyText;
       kind = u.hasValue ? K_STRING : K_FLAG;
       if (u.hasValue) text = u.elems.empty() ? "" : u.elems[0];
+    } else if (c.args[u.arg].spec == "-") {
+      // positional argument: the value is a bare word
+      const ArgDef &a = c.args[u.arg];
+      const int pk = sk[a.slot];
+      w.push_back((isScalar(pk) || u.rawValue) ? (u.elems.empty() ? std::string("x") : u.elems[0]) : joinList(u.elems, effectiveSep(a, pk), ss, so.canonical, so.doubledSepPercent));
+      continue;
     } else {
       const ArgDef &a = c.args[u.arg];
       shortKey = a.shortKey; longKey = a.longKey;
